@@ -21,7 +21,7 @@ RULE = (
     "skewed, outlier-laden, NaN-laden, integer dtype, dyadic; estimate at median/mean/outside/at a replicate/random; alpha scalar incl. 0.001..0.999 "
     "and arrays up to 3-d (quantile); Y up to 2-d. Non-trivial: >= 2 distinct finite replicates; distinct = hash of inputs."
 )
-ASSUMPTIONS = ["finite or NaN replicates (no inf), no all-NaN component", "alpha in (0,1); array alpha only with method quantile",
+ASSUMPTIONS = ["finite or NaN replicates (no inf); a component without finite replicates has NaN limits", "alpha in (0,1); array alpha only with method quantile",
                "statistics.NormalDist and math.fsum are trusted"]
 METHODS = ["quantile", "bc", "bca"]
 
@@ -153,6 +153,8 @@ def execute(ctx, case):
     # per-component independence and shapes with metric shape Y (and alpha arrays for quantile)
     Y = tuple(case["yshape"])
     big = np.stack([np.roll(thf, j) * (1 + (j % 3)) + j for j in range(int(np.prod(Y)))], axis=1).reshape((len(th),) + Y)
+    if case["_seed"] % 4 == 0 and int(np.prod(Y)) > 1:
+        big[(slice(None),) + np.unravel_index(int(np.prod(Y)) - 1, Y)] = np.nan  # a component without any replicate: limits must be NaN
     that_y = (that + np.arange(int(np.prod(Y)), dtype=float)).reshape(Y)
     for method in METHODS:
         full = bootstrap_ci(big, that_y, alpha, method=method)
